@@ -11,6 +11,7 @@ import (
 	"strconv"
 	"strings"
 	"testing/fstest"
+	"time"
 
 	goat "github.com/philhassey/goatlang"
 )
@@ -91,7 +92,7 @@ func (r btReport) frames() string {
 }
 
 func checkC20(c *Ctx) {
-	c.Rule = "(a) call chains = EVERY behaviour of Backtrace.tla with <= 3 (quick) / 4 (thorough) steps over 6 functions and methods (results 0 / 1 / 2) x every call-site shape (4..9 statement forms per callee, including return f()) x 22 fault kinds, plus TLC-simulated behaviours reaching depth 30 with many completed calls before the fault; each replayed as the script of a generated interpreter program (random function order, case order, padding, one or two files), entered by Load+Call and by Eval with trailing top-level code, optimizer on and off; (b) seeded random MiniGo programs with a fault planted (9 kinds x 9 statement shapes) at a random place; distinct_nontrivial = behaviours with at least one active call at the fault + faulting MiniGo programs"
+	c.Rule = "(a) call chains = EVERY behaviour of Backtrace.tla with <= 3 steps (thorough: also 4 steps with 4 of the fault kinds) over 6 functions and methods (results 0 / 1 / 2) x every call-site shape (4..9 statement forms per callee, including return f()) x 22 fault kinds, plus TLC-simulated behaviours reaching depth 30 with many completed calls before the fault; each replayed as the script of a generated interpreter program (random function order, case order, padding, one or two files), entered by Load+Call and by Eval with trailing top-level code, optimizer on and off; (b) seeded random MiniGo programs with a fault planted (9 kinds x 9 statement shapes) at a random place; distinct_nontrivial = behaviours with at least one active call at the fault + faulting MiniGo programs"
 	c.Assumptions = []string{"the error text is parsed as documented (first line: function, file:line:column, instruction, message; then one tab-indented line per active call); columns and the instruction name are not compared (they legitimately differ between optimizer modes)", "calls through function literals are outside the property's quantifier (functions and methods) and not generated in (a)"}
 	r := rand.New(rand.NewSource(c.Seed))
 	c20Backtrace(c, r)
@@ -180,6 +181,7 @@ func c20Backtrace(c *Ctx, r *rand.Rand) {
 			len(btFns)-1, nk, maxDepth, maxLen, minFault, retW)
 	}
 	var behs []btBehaviour
+	var kindMap []int // specification kind k -> fault statement kindMap[k-1] (nil: identity)
 	parse := func(recs []string) {
 		for _, s := range recs {
 			var b btBehaviour
@@ -187,6 +189,16 @@ func c20Backtrace(c *Ctx, r *rand.Rand) {
 			s = strings.ReplaceAll(s, "\"calls\":{}", "\"calls\":[]")
 			if err := json.Unmarshal([]byte(s), &b); err != nil {
 				fatalf("bad Backtrace record %q: %v", clip(s, 300), err)
+			}
+			if kindMap != nil {
+				for i := range b.Script {
+					if b.Script[i].Op == "fault" {
+						b.Script[i].F = kindMap[b.Script[i].F-1]
+					}
+				}
+				if b.Status == "fault" {
+					b.Report.Kind = kindMap[b.Report.Kind-1]
+				}
 			}
 			behs = append(behs, b)
 		}
@@ -196,6 +208,19 @@ func c20Backtrace(c *Ctx, r *rand.Rand) {
 	must(os.WriteFile(filepath.Join(dir, "MC_Backtrace.cfg"), []byte(cfg(len(btFaults), 4, c.pick(3, 3), 0, 1)), 0o644))
 	res := c.runTLC(dir, TLCOpts{Module: "MC_Backtrace", Cfg: "MC_Backtrace.cfg", Workers: 8, HeapMB: 6000, Timeout: c.pickDur(5, 30)})
 	parse(res.Records["BEH"])
+	if !c.quick() {
+		// one step deeper with four fault kinds (which four depends on the seed)
+		kindMap = nil
+		for _, k := range rand.New(rand.NewSource(c.Seed)).Perm(len(btFaults))[:4] {
+			kindMap = append(kindMap, k+1)
+		}
+		d := c.specWorkDir("bt-exh4")
+		must(os.WriteFile(filepath.Join(d, "MC_Backtrace.tla"), []byte(mc), 0o644))
+		must(os.WriteFile(filepath.Join(d, "MC_Backtrace.cfg"), []byte(cfg(4, 4, 4, 0, 1)), 0o644))
+		rs := c.runTLC(d, TLCOpts{Module: "MC_Backtrace", Cfg: "MC_Backtrace.cfg", Workers: 8, HeapMB: 8000, Timeout: 30 * time.Minute})
+		parse(rs.Records["BEH"])
+		kindMap = nil
+	}
 	nExh := len(behs)
 	if nExh < 1000 {
 		fatalf("Backtrace.tla emitted only %d behaviours", nExh)
@@ -406,7 +431,7 @@ func c20MiniGo(c *Ctx, r *rand.Rand) {
 				rep, ok := parseBacktrace(res.ErrString())
 				if !ok {
 					bad = "error text has no position: " + firstLine(res.ErrString())
-				} else if rep.frames() != wantS {
+				} else if !c20FramesMatch(rep, want) {
 					bad = fmt.Sprintf("error names %s ; the fault (%s) and the active calls are %s", rep.frames(), bh.Kind, wantS)
 				}
 			}
@@ -580,6 +605,27 @@ func plantFault(p *Prog, r *rand.Rand, kind string, serial int) string {
 	nl = append(nl, (*list)[at:]...)
 	*list = nl
 	return kind + " in " + shape
+}
+
+// c20FramesMatch compares the reported frames with the specification's; a frame that is a function
+// literal is compared by line only (the property quantifies over functions and methods; how a
+// literal is named is not stated).
+func c20FramesMatch(rep btReport, want []string) bool {
+	got := append([]btFrame{rep.Head}, rep.Calls...)
+	if len(got) != len(want) {
+		return false
+	}
+	for i, w := range want {
+		at := strings.LastIndex(w, "@")
+		name, line := w[:at], w[at+1:]
+		if fmt.Sprint(got[i].Line) != line {
+			return false
+		}
+		if !strings.HasPrefix(name, "main.lit#") && got[i].Fn != name {
+			return false
+		}
+	}
+	return true
 }
 
 func c20Name(fn string) string {
